@@ -158,6 +158,17 @@ CHECKS = {
         "assumptions": ["testing/synctest fake clock", "sk.RecStream timestamps", "rapid v1.3.0; go1.26.8"],
         "jobs": [{"pkg": "c11batch", "kinds": ["batch"], "scale_thorough": 10, "shards_thorough": 16, "replay_reps": 30}],
     },
+    "C10": {
+        "level": "exploration",
+        "level_text": ("Generated multi-actor scripts (1-3 sender actors with Send/TrySend under live, cancelled or later-cancelled contexts, a Close(nil|err) placed in a sender or as its own actor, a receiver with Next and Close) "
+                       "run in testing/synctest bubbles; the harness decides the order in which steps start and whether it waits for quiescence between them, every script runs R times for select randomness; the stamped call/return "
+                       "history is judged: only sent values, none twice, per-sender FIFO, accepted-before-Close delivered before the end, sticky end, valid results, and no call still blocked at a quiescence point where the property says it must have returned"),
+        "level_note": "Schedules are explored by script structure and repetition, not exhaustively; 'stuck' is decided by durable-block detection, not timeouts. Sends are never started after the sender's Close was started (misuse).",
+        "technique": "property-based testing (rapid) of generated actor scripts in testing/synctest bubbles; history-invariant oracle",
+        "rule": ("plans: buffer in {0,1,2,5}, 1-3 senders, 1-24 steps + drain epilogue; non-trivial = Close called while accepted values were still buffered (buffer >= 1), or Sends of two sender actors overlapped, or a Send was blocked when the receiver closed; distinct = distinct plan JSON; R=5/20 executions each"),
+        "assumptions": ["testing/synctest durable-block detection", "logical stamps taken by the actors bracket the library calls", "rapid v1.3.0; go1.26.8"],
+        "jobs": [{"pkg": "c10pipe", "kinds": ["pipe"], "scale_thorough": 8, "shards_thorough": 16, "replay_reps": 200}],
+    },
     "C04": {
         "level": "exploration",
         "level_text": ("Model-based property testing: thousands of generated operation histories (macro-ops reach wrapped, full, "
